@@ -253,4 +253,15 @@ theorem cv_i0_le {s : Sys} (h : Ok s) (hn : 1 ≤ (cv s).nrd) : (cv s).i0 + (cv 
     have := (C01.consumed_is_stream hr 0 (by omega)).2.2.1
     omega
 
+theorem cv_i1_le {s : Sys} (h : Ok s) (hn : 2 ≤ (cv s).nrd) : (cv s).i1 + (cv s).l1 ≤ (cv s).total := by
+  obtain ⟨cap, g, hr⟩ := h
+  replace hn : 2 ≤ s.rds.length := hn
+  show nth s.idx 1 + regionLen s 1 ≤ s.total
+  cases hm : (nth s.rds 1).mapped with
+  | true => exact (read_region_committed hr 1 (by omega) hm).2.2.1
+  | false =>
+    rw [regionLen_unmapped s 1 hm]
+    have := (C01.consumed_is_stream hr 1 (by omega)).2.2.1
+    omega
+
 end AcqVerif.Channel
